@@ -73,6 +73,10 @@ func Request(method, target string, form url.Values, basicUser, basicPass string
 	return nil
 }
 
+// FormAction / FormField read the auto-submitting form_post page: the form's action and a hidden field's value.
+func FormAction(body string) (string, bool)            { stub(); return "", false }
+func FormField(body string, name string) (string, bool) { stub(); return "", false }
+
 // Debugf records a diagnostic line in native runs; ignored symbolically.
 func Debugf(format string, args ...any) { stub() }
 
